@@ -238,8 +238,12 @@ def shipped_model(cfgdir, mdl=None):
     return mdl
 
 
-def judge_decl(params, pos, kw, strict_rest=False):
+def judge_decl(params, pos, kw, strict_rest=False, ignore_unknown_keys=False):
     """pos: list of class sets; kw: dict key -> class set.  'fail' | 'fit' | 'free' against one declaration"""
+    if ignore_unknown_keys:
+        # as ti binds: a keyword argument whose key the declaration does not have is skipped (known finding K37)
+        declared = set(p.key for p in params if p.key)
+        kw = {k: a for k, a in kw.items() if k in declared}
     req = [p for p in params if p.kind == "req"]
     opt = [p for p in params if p.kind == "opt"]
     req2 = [p for p in params if p.kind == "req2"]
@@ -291,7 +295,7 @@ def judge_decl(params, pos, kw, strict_rest=False):
     return res
 
 
-def judge(mdl, recv_classes, m, pos, kw, kind="inst", strict_rest=False):
+def judge(mdl, recv_classes, m, pos, kw, kind="inst", strict_rest=False, ignore_unknown_keys=False):
     per = []
     for c in recv_classes:
         ds = mdl.decls(c, m, kind)
@@ -307,7 +311,7 @@ def judge(mdl, recv_classes, m, pos, kw, kind="inst", strict_rest=False):
         if not ds:
             per.append("fail")
             continue
-        rs = [judge_decl(p, pos, kw, strict_rest) for p, _ in ds]
+        rs = [judge_decl(p, pos, kw, strict_rest, ignore_unknown_keys) for p, _ in ds]
         per.append("fit" if "fit" in rs else ("fail" if all(r == "fail" for r in rs) else "free"))
     if all(r == "fail" for r in per):
         return "fail"
@@ -323,6 +327,7 @@ class ProgGen:
         self.vars = {}         # name -> frozenset of classes
         self.expect = {}       # row -> 'fail' | 'fit'
         self.strict = {}       # row -> verdict when rest parameters check their element type (known finding K28)
+        self.unknown_key = {}  # row -> the call fails only through a keyword argument no declaration knows (known finding K37)
         self.info = {}         # row -> description
         self.ind = 0
         self.nv = 0
@@ -461,6 +466,8 @@ class ProgGen:
             self.expect[row] = verdict
         if strict != verdict:
             self.strict[row] = strict
+        if verdict == "fail" and kw and judge(mdl, rcs, m, pos, kw, kind, ignore_unknown_keys=True) != "fail":
+            self.unknown_key[row] = True      # fails only because a keyword argument has a key no declaration knows (known finding K37)
         self.info[row] = {"recv": rcs, "kind": kind, "method": m, "pos": [sorted(x) for x in pos], "kw": {k: sorted(v) for k, v in kw.items()}, "verdict": verdict}
         rets = set()
         for c in rcs:
